@@ -125,6 +125,7 @@ class FP:
         self.w.point("join")
         before = self.state
         if self.state == "terminating":
+            self.w.mono += self.remaining if (timeout is None or float(timeout) >= self.remaining) else float(timeout)     # waiting takes time
             if timeout is None or float(timeout) >= self.remaining:
                 self.state = "reaped"           # waited until it exited
                 self.w.freed.append(self.pid)
@@ -150,6 +151,8 @@ class World:
         self.calls = 0
         self.mid: Dict[int, List[str]] = {}
         self.boot: List[Any] = []
+        self.wall_off = 1.7e9         # wall clock = virtual clock + offset; the offset is stepped by "wall_step" events (NTP correction, VM resume)
+        self.mono = 1000.0            # the virtual clock behind sleep(), join() and - if the module consults them - monotonic() / time()
         self.queue: Any = None
         self.pid_pool = 0
         self.last_pid = 4999
@@ -195,11 +198,15 @@ class World:
                 self.deliver(s)
 
     def sleep(self, s: Any) -> None:
+        if isinstance(s, (int, float)) and s < 0:
+            raise ValueError("sleep length must be non-negative")      # what time.sleep() does
         if self.tick >= len(self.h):
             raise Stop()
+        self.mono += float(s) if isinstance(s, (int, float)) else 1.0
         ev = self.h[self.tick]
         self.tick += 1
         self.trace.append(["tick", self.tick])
+        self.wall_off += float(ev.get("wall_step", 0) or 0)
         for p in self.procs:
             if p.state == "terminating":
                 p.remaining -= 1.0
@@ -264,6 +271,10 @@ def run_manager(W: int, max_fails: int, history: List[Dict[str, Any]], startup_d
     pm.signal = types.SimpleNamespace(SIGINT=2, SIGTERM=15, SIGHUP=1, signal=lambda s, h: w.handlers.__setitem__(int(s), h))  # type: ignore
     pm.Process = mk_process  # type: ignore
     pm.sleep = w.sleep  # type: ignore
+    for clock_name in ("monotonic", "time", "perf_counter"):
+        if callable(getattr(pm, clock_name, None)):      # only if the module itself reads a clock: it gets the virtual one
+            _ORIG.setdefault(clock_name, getattr(pm, clock_name))
+            setattr(pm, clock_name, (lambda: w.mono + w.wall_off) if clock_name == "time" else (lambda: w.mono))
     pm.Queue = mk_queue  # type: ignore
     pm.Event = FE  # type: ignore
     pm.os = types.SimpleNamespace(kill=w.kill, getpid=lambda: 1)  # type: ignore
